@@ -123,11 +123,44 @@ def hash_root_rule(rep, f):
                "src/xercesc/validators/schema/identity/ValueStore.cpp:%s" % el.get("l", 0))
 
 
+CONTEXT_OMITTERS = {
+    "DOMXPathExpressionImpl::evaluate": "DOM XPath evaluation over a tree: there is no validation in progress, hence no validation context",
+    "DOMXPathExpressionImpl::testNode": "same",
+}
+
+
+def context_rule(rep, f):
+    rep.rule("C10.d", "the validation context reaches the field matchers: every call in the library of a function with a defaulted "
+             "`ValidationContext* = 0` parameter (XPathMatcher::startElement / endElement and their overriders) passes the context "
+             "explicitly, except from the DOM XPath evaluator which has none — without it a QName-typed field value is compared "
+             "with an empty namespace ({}local instead of {uri}local), so equal-looking prefixed keys of different namespaces "
+             "collide and different prefixes for one namespace do not match")
+    n = 0
+    for x in f.kind("call"):
+        cx = x["x"]
+        sig = cx[4] if len(cx) > 4 and isinstance(cx[4], str) else ""
+        if "ValidationContext" not in sig:
+            continue
+        ps = sig.strip("()").split(",")
+        for i, prm in enumerate(ps):
+            if "ValidationContext" in prm and i < len(cx[3]):
+                n += 1
+                a = cx[3][i]
+                q = x["_fn"]["q"]
+                if a[0] == "def" and q not in CONTEXT_OMITTERS:
+                    rep.ob("C10.d", "%s@%s" % (q, cx[1].split("::")[-1]), False,
+                           "%s (line %s) calls %s without the validation context (the defaulted null is used)" % (q, x.get("l"), cx[1]),
+                           "%s:%s" % (x["_fn"]["file"], x.get("l", 0)))
+    rep.floor("C10.d", n, 20)
+    rep.ob("C10.d", "context-passing", True, "%d call sites pass their ValidationContext parameter (DOM XPath evaluator exempt)" % n, "")
+
+
 def run(rep):
     f = core.library_facts()
     rep.units.update(os.path.relpath(t, core.REPO) for t in f.tus)
     protocol_rule(rep, f)
     hash_root_rule(rep, f)
+    context_rule(rep, f)
     diag.run(rep, f, "C10")
     dispatch.run(rep, f, "C10")
     rep.undecided += ["value-space equality of field tuples (canonical forms, hashing)", "scoping results of key/keyref across nested scopes",
